@@ -14,6 +14,7 @@ from __future__ import annotations
 import hashlib
 import random
 import warnings
+from contextlib import AsyncExitStack
 from typing import Any
 
 import anyio
@@ -110,21 +111,32 @@ class H:
         sim = self.sim
         cid = b["id"]
         pmode = b.get("parent", "implicit")
-        if pmode == "explicit" and exp in self.ctxs:
+        lexical = exp
+        if pmode == "ancestor" and b.get("parent_id") in self.ctxs:
+            # an explicit parent that is not the current context: the snapshot comes from it,
+            # while the current context stays what it was around the block
+            ctx = Context(self.ctxs[b["parent_id"]])
+            exp = b["parent_id"]
+        elif pmode == "explicit" and exp in self.ctxs:
             ctx = Context(self.ctxs[exp])
         else:
             ctx = Context()
         self.know(ctx, cid)
         sim.log("ctx_new", ctx=cid, parent=self.cid(ctx.parent), exp=exp)
         self.observe()
-        if b.get("between") and exp is not None:
-            # the parent keeps changing between the child's construction and its entry: the
-            # child's view is the snapshot taken at construction
-            await self.acts(b["between"], exp)
+        if b.get("between") and lexical is not None:
+            # the (lexically current) context keeps changing between the child's construction
+            # and its entry: the child's view is the snapshot taken at construction
+            await self.acts(b["between"], lexical)
         try:
             # the listener is opened before the context is entered and drained after it has
             # been left, so publications made during teardown are heard too
-            async with ctx.resource_added.stream_events(max_queue_size=100000) as stream:
+            async with AsyncExitStack() as lstack:
+                if b.get("noisy_listener"):
+                    # an earlier subscriber of the same signal with a tiny queue that nobody
+                    # drains: it overflows at once and must not affect anybody else
+                    await lstack.enter_async_context(ctx.resource_added.stream_events(max_queue_size=b["noisy_listener"] - 1))
+                stream = await lstack.enter_async_context(ctx.resource_added.stream_events(max_queue_size=100000))
                 try:
                     async with ctx:
                         sim.log("ctx_enter", ctx=cid)
@@ -133,9 +145,13 @@ class H:
                 finally:
                     try:
                         ctx.resource_added.dispatch(ResourceEvent((), SENTINEL, None, False))
-                        with anyio.CancelScope(shield=True):
+                        got_sentinel = False
+                        # everything dispatched so far is already queued, so this never
+                        # really waits - unless delivery to this listener is broken
+                        with anyio.move_on_after(5.0, shield=True):
                             async for ev in stream:
                                 if ev.resource_name == SENTINEL:
+                                    got_sentinel = True
                                     break
                                 sim.log(
                                     "event",
@@ -147,6 +163,8 @@ class H:
                                     source=self.cid(ev.source),
                                     topic=ev.topic,
                                 )
+                        if not got_sentinel:
+                            sim.log("note", what="drain_failed", exc="the listener never received the end marker dispatched on its own context")
                     except BaseException as e:  # noqa: BLE001
                         sim.log("note", what="drain_failed", exc=f"{type(e).__name__}: {e}")
                         raise
@@ -183,6 +201,8 @@ class H:
                 await self.do_inject(a[1], exp)
             elif op == "getres":
                 self.do_getres(a[1], exp)
+            elif op == "inj_late":
+                await self.do_inject_late(a[1])
             self.observe()
 
     async def branch(self, br: dict, exp: str) -> None:
@@ -248,7 +268,7 @@ class H:
         if bad:
             sim.fault("invalid_call")
         try:
-            via_mod = spec.get("via") == "mod" and tgt == self.cur()
+            via_mod = spec.get("via") == "mod" and tgt == exp
             if via_mod:
                 mod_add_resource(value, name, typearg, **kwargs)
             else:
@@ -363,7 +383,7 @@ class H:
         if bad:
             sim.fault("invalid_call")
         try:
-            if spec.get("via") == "mod" and tgt == self.cur():
+            if spec.get("via") == "mod" and tgt == exp:
                 mod_add_resource_factory(fac, name, **kwargs)
             else:
                 ctx.add_resource_factory(fac, name, **kwargs)
@@ -389,7 +409,7 @@ class H:
         name = spec.get("name", "default")
         api = spec.get("api", "get")
         optional = bool(spec.get("optional"))
-        if api.startswith("mod_") and tgt != self.cur():
+        if api.startswith("mod_") and tgt != exp:
             api = api[4:]
         self.nlook += 1
         lid = self.nlook
@@ -432,18 +452,58 @@ class H:
         if ctx is None:
             return
         t = TYPES[spec["type"]]
-        if spec.get("via") == "mod" and tgt == self.cur():
+        if spec.get("via") == "mod" and tgt == exp:
             got = mod_get_resources(t)
         else:
             got = ctx.get_resources(t)
         self.sim.log("getres", ctx=tgt, type=spec["type"], view={n: self.vtag(v) for n, v in got.items()})
+
+    async def do_inject_late(self, spec: dict) -> None:
+        """A string forward reference that cannot be resolved at the first call (the class
+        does not exist yet) and can at the second: resolution must be retried."""
+        sim = self.sim
+        ns: dict[str, Any] = {}
+        is_async = spec.get("async", True)
+        src = (
+            "from __future__ import annotations\n"
+            "from asphalt.core import inject, resource\n"
+            "@inject\n"
+            + ("async " if is_async else "")
+            + "def late(x, *, r: LateT = resource('late')):\n    return (x, r)\n"
+        )
+        exec(src, ns)
+        fn = ns["late"]
+        async with Context() as lc:
+            first = "ok"
+            try:
+                (await fn(1)) if is_async else fn(1)
+            except NameError:
+                first = "NameError"
+            except BaseException as e:  # noqa: BLE001
+                if contains_cancel(e):
+                    raise
+                first = type(e).__name__
+            late_t = type("LateT", (), {})
+            ns["LateT"] = late_t
+            obj = late_t()
+            lc.add_resource(obj, "late")
+            second = "ok"
+            same = None
+            try:
+                ret = (await fn(2)) if is_async else fn(2)
+                same = ret[0] == 2 and ret[1] is obj
+            except BaseException as e:  # noqa: BLE001
+                if contains_cancel(e):
+                    raise
+                second = f"{type(e).__name__}: {str(e)[:60]}"
+            sim.log("inj_late", first=first, second=second, same=same, is_async=is_async)
 
     async def do_inject(self, spec: dict, exp: str) -> None:
         sim = self.sim
         fn, is_async, deps, shape = CATALOGUE[spec["fn"]]
         self.nlook += 1
         lid = self.nlook
-        cur = self.cur()
+        cur = exp  # @inject must resolve in the context current at call time = the lexical one
         x = object()
         k = object()
         sim.log(
@@ -833,6 +893,7 @@ def oracle(sim: Sim, plan: dict) -> list[dict]:
                             v("C04.failed_gen", "registered", f"{where}: raising factory left a resource behind")
                     elif out == "ok":
                         if cur is None or val != cur["val"]:
+                            v("C02.lookup", "generated_differs", f"{where}: returned {val}, but the context holds {cur['val'] if cur else None} under that key (lookup paths disagree)")
                             v(
                                 "C04.same",
                                 "product",
@@ -900,6 +961,9 @@ def oracle(sim: Sim, plan: dict) -> list[dict]:
                     v("C19.equiv", want_out, f"{where}: expected {want_out}, got {d['out']}/{d['vals']}")
                 if d["body_ran"]:
                     v("C19.before_body", want_out, f"{where}: function body ran although a dependency lookup failed")
+        elif kind == "inj_late":
+            if d["second"] != "ok" or d["same"] is not True:
+                v("C19.forward_ref", "retry", f"@inject with a forward reference that became resolvable only after a failed first call ({d['first']}): second call gave {d['second']} (same object: {d['same']})")
         elif kind == "event":
             obs_events.setdefault(d["ctx"], []).append(d)
         elif kind == "td_run":
@@ -1066,6 +1130,8 @@ class G:
                 spec["target"] = t
             return ["get", spec]
         if op == "inj":
+            if self.prop == "C19" and rng.random() < 0.08:
+                return ["inj_late", {"async": rng.random() < 0.5}]
             return ["inj", {"fn": rng.choice(sorted(CATALOGUE)), "posx": rng.random() < 0.5}]
         if op == "getres":
             spec = {"type": rng.choice(self.tn)}
@@ -1153,6 +1219,11 @@ class G:
         self.nctx += 1
         cid = f"x{self.nctx}"
         b: dict[str, Any] = {"id": cid, "parent": rng.choice(("implicit", "implicit", "explicit"))}
+        if rng.random() < (0.3 if self.prop == "C18" else 0.08):
+            b["noisy_listener"] = rng.choice((1, 2))
+        if len(lineage) >= 2 and rng.random() < 0.15:
+            b["parent"] = "ancestor"
+            b["parent_id"] = rng.choice(lineage[:-1])
         n = rng.randint(1, 7 if self.tier == "quick" else 10)
         if lineage and rng.random() < 0.25:
             b["between"] = [a for a in (self.act(lineage, depth) for _ in range(rng.randint(1, 3))) if a[0] in ("add", "fac", "get", "p")]
